@@ -521,11 +521,16 @@ class FileIndex(Index):
             def segreader(segment):
                 if segment in reusable:
                     r = reusable[segment]
-                    del reusable[segment]
-                    return r
-                else:
-                    return SegmentReader(storage, schema, segment,
-                                         generation=generation)
+                    # Segments are equal if they have the same ID, but a
+                    # commit can delete documents from a segment it keeps. An
+                    # open reader still has the old deletions, so it can only
+                    # be reused if the segment's deletions have not changed
+                    if (set(r.segment().deleted_docs())
+                        == set(segment.deleted_docs())):
+                        del reusable[segment]
+                        return r
+                return SegmentReader(storage, schema, segment,
+                                     generation=generation)
 
             if len(segments) == 1:
                 # This index has one segment, so return a SegmentReader object
